@@ -236,6 +236,9 @@ def additional_data_only_prepended(chk):
                 rows = [n for n in sym.walk(v[2][0][1]) if n[0] == "call" and n[1] in ("pd.DataFrame", "pd.Series", "pandas.DataFrame", "pandas.Series")]
                 want_idx = canon(("list", ("-", ("sub", ("attr", old, "index"), sym.ZERO), ("call", "pd.DateOffset", (), (("days", sym.ONE),)))))
                 ok = ok and bool(rows) and all(r_[2] and r_[2][0] == ("nan",) and canon(dict(r_[3]).get("index", sym.NONE)) == want_idx for r_ in rows)
+                # ... and only entries indexed exactly like the price data get it (anything else - a sparse signal, a table keyed differently - is passed through untouched)
+                same_index = ("mcall", ("attr", old, "index"), "equals", (("attr", ("param", "data"), "index"),), ())
+                ok = ok and sym.lit_holds(G(e), canon(same_index), True)
             chk.ob("C04.R6", ok, "bt/backtest.py", "Backtest._process_data", "additional-data-only-prepended", "additional data is only given the synthetic first row: rows are never shifted", where=e.where,
                    found=short(v, 140))
 
